@@ -1,0 +1,17 @@
+//go:build verif
+
+package clientip
+
+import "net"
+
+// VerifDefaultRanges exposes (read-only copies of) the built-in range tables, compiled only with the
+// "verif" build tag. It is used to derive exact interval boundaries for the exhaustive range audit.
+func VerifDefaultRanges() map[string][]net.IPNet {
+	cp := func(in []net.IPNet) []net.IPNet { return append([]net.IPNet(nil), in...) }
+	return map[string][]net.IPNet{
+		"privateAndLocal": cp(privateAndLocalRanges),
+		"private":         cp(privateRange),
+		"loopback":        cp(loopbackRanges),
+		"linkLocal":       cp(linkLocalRanges),
+	}
+}
